@@ -302,8 +302,10 @@ func (w *world) genAttrs(n, depth int) []slog.Attr {
 }
 
 // toArgs spells a list of attributes the way callers do: as Attr values or
-// as alternating key, value pairs.
-func toArgs(attrs []slog.Attr) []any {
+// as alternating key, value pairs - and now and then with a malformed tail (a
+// key without a value, a value that is neither a key nor an Attr), which means
+// an attribute under "!BADKEY". It returns the arguments and what they mean.
+func (w *world) toArgs(attrs []slog.Attr) ([]any, []slog.Attr) {
 	var args []any
 	for _, a := range attrs {
 		if a.Key != "" && simrt.Choose("arg.form", 2) == 1 {
@@ -315,7 +317,18 @@ func toArgs(attrs []slog.Attr) []any {
 			args = append(args, a)
 		}
 	}
-	return args
+	switch simrt.Choose("arg.malformed", 10) {
+	case 8:
+		simrt.Probe("malformed_args")
+		v := w.token("dangling")
+		args = append(args, v)
+		attrs = append(append([]slog.Attr{}, attrs...), slog.String("!BADKEY", v))
+	case 9:
+		simrt.Probe("malformed_args")
+		args = append(args, 4200+w.uniq)
+		attrs = append(append([]slog.Attr{}, attrs...), slog.Any("!BADKEY", 4200+w.uniq))
+	}
+	return args, attrs
 }
 
 func (w *world) newRoot(out io.Writer) *logger.Logger {
@@ -578,7 +591,7 @@ func (w *world) derive(by string) {
 		}
 	} else {
 		s.attrs = w.genAttrs(1+ch("derive.n", 3), 0)
-		s.args = toArgs(s.attrs)
+		s.args, s.attrs = w.toArgs(s.attrs)
 	}
 	child := &node{chain: append(append([]step{}, parent.chain...), s)}
 	child.l = applyStep(parent.l, s)
@@ -639,7 +652,7 @@ func (w *world) log(by string, n *node) {
 	}
 	if r.method != 3 {
 		r.attrs = w.genAttrs(ch("log.attrs", 4), 0)
-		r.args = toArgs(r.attrs)
+		r.args, r.attrs = w.toArgs(r.attrs)
 	}
 	r.enabled = r.level >= w.level
 	if !r.enabled {
